@@ -239,11 +239,11 @@ impl MultiRecordLog {
             };
             num_bytes_written += self.record_log_writer.write_record(record)?;
         }
-        if num_bytes_written > 0 {
-            // We need to fsync here! We are remove files from the FS
-            // so we need to make sure our empty queue positions are properly persisted.
-            self.persist(PersistAction::FlushAndFsync)?;
-        }
+        // We need to fsync here! We are remove files from the FS
+        // so we need to make sure our empty queue positions are properly persisted,
+        // and, even if there are none, that whatever supersedes the removed files
+        // is not still sitting in a buffer.
+        self.persist(PersistAction::FlushAndFsync)?;
         Ok(num_bytes_written)
     }
 
